@@ -549,3 +549,99 @@ def rule_zero_snap_tolerance(prog, C, rule):
                 else:
                     C.add(rule, UNDECIDED, where, cons, "absolute tolerance %.3g is wider than documented; genuine small totals could be zeroed" % v)
     return n
+
+
+# ------------------------------------------------------------------------------ region dtypes
+WIDE = {"builtins.int", "builtins.float", "numpy.int64", "numpy.float64", "numpy.intp", "numpy.int_", "numpy.double", "numpy.longlong", "builtins.bool", "numpy.bool_", "builtins.complex"}
+NARROW = {"numpy.int8", "numpy.int16", "numpy.int32", "numpy.uint8", "numpy.uint16", "numpy.uint32", "numpy.uint64", "numpy.uintp", "numpy.float16", "numpy.float32", "numpy.single", "numpy.half",
+          "numpy.intc", "numpy.uintc", "numpy.short", "numpy.ushort", "numpy.byte", "numpy.ubyte", "numpy.uint"}
+
+
+def rule_region_dtypes(prog, C, rule, classes=None):
+    """Every region a cube aggregate allocates can hold a row count of any size and the negative / fractional
+    intermediate values of marginal differencing: Python int / float (64-bit), or the fact array's own dtype."""
+    n = 0
+    for module, pre in (("ffuncs", "ffunc_"), ("xfuncs", "xfunc_")):
+        m = prog.modules[module]
+        for cname, ci in sorted(m.classes.items()):
+            if not cname.startswith(pre) or (classes and cname[len(pre):] not in classes):
+                continue
+            fi = ci.methods.get("get_initial_regions")
+            if fi is None or prog.is_abstract(fi) if hasattr(prog, "is_abstract") else fi is None:
+                continue
+            I = Interp(prog, hints.param_types_for(module), hints.FIELD_TYPES, inline=False)
+            try:
+                I.run(fi)
+            except Exception:
+                continue
+            for e in I.events:
+                if e.kind != "call" or e["name"] not in ("numpy.zeros", "numpy.full", "numpy.empty", "numpy.ones"):
+                    continue
+                dt = dict(e["kwargs"]).get("dtype")
+                where = "%s@%d" % (fi.fq, e.line)
+                cons = "%s: region allocated by %s" % (cname, e.src()[:60])
+                n += 1
+                if dt is None:
+                    C.add(rule, PROVED, where, cons, "default dtype float64")
+                    continue
+                verdicts = []
+                for a in tm.alts(dt):
+                    d = tm.dotted(a)
+                    if a.op == "call" and tm.callee_name(a) == "numpy.dtype" and a.args[1]:
+                        d = tm.dotted(a.args[1][0])
+                    if a.op == "const" and isinstance(a.args[1], str):
+                        d = {"i8": "numpy.int64", "f8": "numpy.float64", "int64": "numpy.int64", "float64": "numpy.float64", "int": "builtins.int", "float": "builtins.float",
+                             "i4": "numpy.int32", "u4": "numpy.uint32", "f4": "numpy.float32", "int32": "numpy.int32", "uint32": "numpy.uint32", "float32": "numpy.float32",
+                             "u1": "numpy.uint8", "u2": "numpy.uint16", "i2": "numpy.int16", "u8": "numpy.uint64"}.get(a.args[1].lstrip("<=>|"))
+                    if d in WIDE:
+                        verdicts.append("wide")
+                    elif d in NARROW:
+                        verdicts.append(("narrow", d))
+                    elif a.op == "attr" and a.args[1] == "dtype":
+                        verdicts.append("wide")  # the fact array's own dtype
+                    else:
+                        verdicts.append(("unknown", tm.show(a)[:40]))
+                nar = [v for v in verdicts if isinstance(v, tuple) and v[0] == "narrow"]
+                unk = [v for v in verdicts if isinstance(v, tuple) and v[0] == "unknown"]
+                if nar:
+                    C.add(rule, VIOLATED, where, cons, "dtype %s cannot hold every row count (and an unsigned type cannot hold the negative intermediate values of marginal differencing): counts wrap silently" % nar[0][1],
+                          {"inputs": "a cube over more rows than the type's maximum; or, for an unsigned type, any cube with a common category (corner - sum of cells is computed in place)"})
+                elif unk:
+                    C.add(rule, UNDECIDED, where, cons, "dtype %s not recognised" % unk[0][1])
+                else:
+                    C.add(rule, PROVED, where, cons, "64-bit int/float or the fact array's dtype")
+    return n
+
+
+# ------------------------------------------------------------------------------ vectorised increments
+def rule_fancy_increment(prog, C, rule):
+    """`region[<integer array>] += v` adds v once per DISTINCT index (NumPy buffers the read-modify-write);
+    a per-row accumulation must use bincount / add.at.  Zero instances are expected."""
+    n = 0
+    hits = 0
+    for module, pre, meths in (("xfuncs", "xfunc", ("fill", "_fill_one", "_fill_one_by_coordinates")), ("ffuncs", "ffunc", ("fill_func",))):
+        m = prog.modules[module]
+        for cname, ci in sorted(m.classes.items()):
+            for mn in meths:
+                fi = ci.methods.get(mn)
+                if fi is None or getattr(fi, "node", None) is None:
+                    continue
+                I = Interp(prog, hints.param_types_for(module), hints.FIELD_TYPES, max_depth=3)
+                try:
+                    I.run(fi)
+                except Exception:
+                    continue
+                n += 1
+                for e in I.events:
+                    if e.kind != "store_sub" or e["aug"] is None:
+                        continue
+                    idx = e["index"]
+                    arrayish = tm.contains(idx, lambda x: x.op == "param" and x.args[0] in ("coordinates", "coords", "x_rowids", "rowids")) and not tm.contains(idx, lambda x: x.op == "cmp")
+                    if arrayish and not (e["base"].op == "param" and e["base"].args[0] in ("tracing",)):
+                        hits += 1
+                        C.add(rule, VIOLATED, "%s@%d" % (fi.fq, e.line), "%s.%s: %s[%s] %s= ..." % (cname, mn, tm.show(e["base"])[:20], tm.show(idx)[:30], e["aug"]),
+                              "an in-place operation through an integer-array index is applied once per distinct index: rows that share a cell are counted once",
+                              {"inputs": "any cube in which two rows fall into the same cell"})
+    if not hits:
+        C.add(rule, PROVED, "ffuncs/xfuncs", "no in-place operation through an integer-array index in %d fill methods" % n, "accumulation uses bincount / per-cell stores")
+    return n
